@@ -662,6 +662,28 @@ def checkAggrFunctionArgs : Expr → Res Unit
     | none => pure ()
   | _ => pure ()
 
+/-- `SelectStmt.RewriteFieldNames(ctx)` (repair: a select field that is just the name of another select
+    field is a reference to that field, and takes its type): field `i`, `i+1`, … in turn (`n` fields
+    left).  Runs right after the `CheckCtx` is made, before any other clause resolves field names.
+    `GetNamedExpr` returning the field itself (`nexpr == name`) is the table index being `i`. -/
+def rewriteFieldNames : Nat → Nat → Tbl → List Nat → Res (Tbl × List Nat)
+  | 0, _, tbl, tys => pure (tbl, tys)
+  | n + 1, i, tbl, tys =>
+    match tbl[i]? with
+    | none => pure (tbl, tys)
+    | some (_, f) =>
+      match f with
+      | .name _ d =>
+        match tbl.find d with
+        | some (j, tgt) =>
+          if j == i then rewriteFieldNames n (i + 1) tbl tys
+          else do
+            let f' ← ({ tbl := tbl, cur := some i } : CheckCtx).rewrite f
+            let t ← ({ tbl := tbl } : CheckCtx).rt tgt
+            rewriteFieldNames n (i + 1) (tbl.setField i f') (tys.set i t)
+        | none => rewriteFieldNames n (i + 1) tbl tys
+      | _ => rewriteFieldNames n (i + 1) tbl tys
+
 /-- `SelectStmt.ValidateFields(ctx)`: field `i`, `i+1`, … in turn (`n` fields left) -/
 def validateFields : Nat → Nat → Tbl → Res Tbl
   | 0, _, tbl => pure tbl
@@ -726,7 +748,8 @@ def parseWhere (efuel lfuel : Nat) (spos : Nat) (sel : SelAcc) (wherePos : Nat) 
   | [] => eofErr
   | _ :: _ => do
     let (expr, ts) ← parseExpr pf efuel ts
-    let tbl : Tbl := sel.names.zip sel.fields
+    let tbl0 : Tbl := sel.names.zip sel.fields
+    let (tbl, types) ← rewriteFieldNames tbl0.length 0 tbl0 sel.types
     let c ← clauseLoop pf efuel lfuel lfuel { tbl := tbl } ts
     -- Check syntax
     let ctx : CheckCtx := { tbl := c.tbl }
@@ -737,7 +760,7 @@ def parseWhere (efuel lfuel : Nat) (spos : Nat) (sel : SelAcc) (wherePos : Nat) 
       let tbl' ← validateFields c.tbl.length 0 c.tbl
       pure (.select {
         pos := spos, allFields := sel.all, fields := tbl'.map (fun p => resolveTop tbl' p.2),
-        fieldNames := sel.names, fieldTypes := sel.types,
+        fieldNames := sel.names, fieldTypes := types,
         wherePos := wherePos, where_ := resolveTop tbl' expr',
         order := c.order, groupBy := c.group.map (finalGroup tbl'), limit := c.limit })
 
